@@ -69,20 +69,20 @@ func storeHashes(n *vn.Node) map[string]string {
 
 // replicaKnobs are the process-local conditions of a follower.
 type replicaKnobs struct {
-	DB          string `json:"db"`          // memdb | goleveldb
-	IAVLCache   int    `json:"iavl_cache"`  // 0 = default
-	InterBlock  bool   `json:"inter_block"` // inter-block cache
-	Pruning     string `json:"pruning"`
-	MinGas      string `json:"min_gas"`
-	MaxTxGas    uint64 `json:"max_tx_gas_wanted"`
-	InvCheck    uint   `json:"inv_check"`
-	Preconstr   bool   `json:"preconstruct"` // build an unused app first in the same process
-	Schedule    int64  `json:"schedule"`     // seed for interleaved CheckTx/queries (0 = none)
-	QueryStorm  int    `json:"query_storm"`  // concurrent query goroutines while blocks execute
-	RestartAt   []int  `json:"restart_at"`   // heights after whose commit the app is reopened from its DB
-	GOMAXPROCS  int    `json:"gomaxprocs"`
-	GOGC        int    `json:"gogc"`
-	TZ          string `json:"tz"`
+	DB         string `json:"db"`          // memdb | goleveldb
+	IAVLCache  int    `json:"iavl_cache"`  // 0 = default
+	InterBlock bool   `json:"inter_block"` // inter-block cache
+	Pruning    string `json:"pruning"`
+	MinGas     string `json:"min_gas"`
+	MaxTxGas   uint64 `json:"max_tx_gas_wanted"`
+	InvCheck   uint   `json:"inv_check"`
+	Preconstr  bool   `json:"preconstruct"` // build an unused app first in the same process
+	Schedule   int64  `json:"schedule"`     // seed for interleaved CheckTx/queries (0 = none)
+	QueryStorm int    `json:"query_storm"`  // concurrent query goroutines while blocks execute
+	RestartAt  []int  `json:"restart_at"`   // heights after whose commit the app is reopened from its DB
+	GOMAXPROCS int    `json:"gomaxprocs"`
+	GOGC       int    `json:"gogc"`
+	TZ         string `json:"tz"`
 }
 
 func (k replicaKnobs) String() string {
